@@ -137,7 +137,7 @@ func report(e *Engine, results []*funcResult, prop, tier, outDir string, verbose
 				continue
 			}
 			for i, o := range r.Obligs {
-				if o.Kind == "cover" {
+				if o.Kind == "cover" || os.Getenv("FLYTVC_DUMP_ALL") != "" {
 					os.MkdirAll(dump, 0o755)
 					os.WriteFile(filepath.Join(dump, fmt.Sprintf("cover-%s-%d.smt2", sanitize(o.Name), i)), []byte(singleScript(r.VC.w.prelude(), r.VC.decls, o, false, false)), 0o644)
 				}
